@@ -49,7 +49,7 @@ def is_cyclic(dct):
     return any(color.get(u) is None and dfs(u) for u in dct)
 
 
-def make_routine(present_by_node, rng):
+def make_routine(present_by_node, rng, compiled=True):
     """a small compiled hierarchy whose nodes hold the given resources with symbolic values"""
     def node(name, present, kids):
         return {"name": name, "input_params": ["N"],
@@ -61,6 +61,11 @@ def make_routine(present_by_node, rng):
     for n in (root, mid):
         if not n["linked_params"]:
             del n["linked_params"]
+    if not compiled:
+        # the transform is defined on uncompiled routines as well
+        from bartiq import Routine
+
+        return Routine.from_qref(schema(root), B)
     return compile_routine(schema(root)).routine
 
 
@@ -252,8 +257,10 @@ def run(ctx, widen=False):
         if not dct:
             continue
         subsets = [[(r, rng.choice(types)) for r in NAMES + ["base1", "untouched"] if rng.random() < 0.6] for _ in range(3)]
-        cr = make_routine(subsets, rng)
-        if not check_one(ctx, cr, dct, rng.random() < 0.5, rng, "random"):
+        uncompiled = rng.random() < 0.3
+        cr = make_routine(subsets, rng, compiled=not uncompiled)
+        ctx.stats["random_on_" + ("uncompiled" if uncompiled else "compiled") + "_routine"] += 1
+        if not check_one(ctx, cr, dct, rng.random() < 0.5, rng, "random (uncompiled routine)" if uncompiled else "random"):
             return
         if any(t in dct for v in dct.values() for t in v):
             ctx.nontrivial(("rand", i))
